@@ -140,6 +140,19 @@ class TFObj(TF):
         return self.s
 
 
+class SubTag(ht.Tag):
+    """A user subclass of Tag behaves like a Tag everywhere."""
+
+
+class SubDep(ht.HTMLDependency):
+    """A user subclass of HTMLDependency is a dependency like any other."""
+
+
+class SubMeta(ht.MetadataNode):
+    def __init__(self):
+        self.payload = ["user data"]
+
+
 class ReprMeta(ht.MetadataNode):
     """A metadata node that happens to be self-rendering (e.g. for notebooks): in a tag tree it is still only metadata."""
 
@@ -311,6 +324,8 @@ def _build(r):
     if k == "meta":
         if r.get("repr"):
             return ReprMeta()
+        if r.get("sub"):
+            return SubMeta()
         return ht.MetadataNode()
     if k == "none":
         return None
@@ -372,7 +387,11 @@ def build_dep(r):
             kw["head"] = h
         else:
             kw["head"] = [build(c) for c in h]
-    return ht.HTMLDependency(r["name"], r["version"], **kw)  # (keys such as _mark / nofs are harness-only)
+    ver = r["version"]
+    if r.get("version_object"):
+        from packaging.version import Version
+        ver = Version(ver)
+    return (SubDep if r.get("sub") else ht.HTMLDependency)(r["name"], ver, **kw)  # (keys such as _mark / nofs are harness-only)
 
 
 def _deepcopy_json(x):
@@ -399,7 +418,10 @@ def build_tag(r):
     f = tag_function(name) if r.get("via_fn", True) and not r.get("svg") else None
     if r.get("svg"):
         f = getattr(ht.svg, name)
-    mk = (lambda *a, **kw: f(*a, _add_ws=ws, **kw)) if f else (lambda *a, **kw: ht.Tag(name, *a, _add_ws=ws, **kw))
+    if r.get("subclass"):
+        f = None
+    base = SubTag if r.get("subclass") else ht.Tag
+    mk = (lambda *a, **kw: f(*a, _add_ws=ws, **kw)) if f else (lambda *a, **kw: base(name, *a, _add_ws=ws, **kw))
     # attributes: each attribute by dict (keeps arbitrary names and order)
     attr_args = [{n: build_attr_value(v)} for n, v in attrs]
     if how == "ctor":
@@ -430,7 +452,7 @@ def build_tag(r):
     if how == "taglist":
         return mk(*attr_args, ht.TagList(*kids))
     if how == "toggle_ws":  # built with the other flag, flag set afterwards
-        t = (f(*attr_args, *kids, _add_ws=not ws) if f else ht.Tag(name, *attr_args, *kids, _add_ws=not ws))
+        t = (f(*attr_args, *kids, _add_ws=not ws) if f else base(name, *attr_args, *kids, _add_ws=not ws))
         t.add_ws = ws
         return t
     if how == "reassign_children":
@@ -593,6 +615,8 @@ def rand_tree(rng, depth=4, kinds=None, names=tag_name, max_children=5, attrs=Tr
                  "how": rng.choice(HOWS) if hows else "ctor"}
             if rng.random() < 0.3:
                 r["via_fn"] = False
+            if rng.random() < 0.05:
+                r["subclass"] = True
             return r
         if k == "text":
             return {"k": "text", "s": text(rng)}
@@ -603,9 +627,14 @@ def rand_tree(rng, depth=4, kinds=None, names=tag_name, max_children=5, attrs=Tr
         if k == "obj":
             return {"k": "obj", "s": leaf_hook(rng, "obj") if leaf_hook else "<u>o</u>"}
         if k == "meta":
-            return {"k": "meta"}
+            return {"k": "meta", "sub": True} if rng.random() < 0.3 else {"k": "meta"}
         if k == "dep":
-            return {"k": "dep", "name": rng.choice(["da", "db", "dc"]), "version": rng.choice(["1.0", "1.1", "2.0"])}
+            d_ = {"k": "dep", "name": rng.choice(["da", "db", "dc"]), "version": rng.choice(["1.0", "1.1", "2.0"])}
+            if rng.random() < 0.2:
+                d_["sub"] = True
+            if rng.random() < 0.2:
+                d_["version_object"] = True
+            return d_
         if k == "list":
             return {"k": "list", "t": rng.choice(["list", "tuple", "taglist"]),
                     "c": [node(d - 1) for _ in range(rng.randint(0, 3))]}
